@@ -46,6 +46,65 @@ type sstCase struct {
 	flavour      string // "table" (ascending, fault free) or "program"
 	calls        []sstCall
 	extra        []sstProbe // hand-written probes of a corpus case, run after the generated ones
+	big          string     // "" or the size classes of a big-record case (values / keys above 32 KiB, 64 KiB, 1 MiB): reduced probe list
+	cmp          string     // key comparator handed to writer and readers ("" = skiplist.BytesComparator): same ORDER, other magnitudes
+}
+
+// contract-conforming comparators over the bytes order whose results are not restricted to -1/0/+1
+// (the documented contract of skiplist.Comparator is <0, 0, >0)
+type sstMagCmp struct {
+	diff  bool // difference of the first differing byte (length difference for a proper prefix) instead of the sign
+	scale int
+}
+
+func (c sstMagCmp) Compare(a, b []byte) int {
+	if !c.diff {
+		return c.scale * bytes.Compare(a, b)
+	}
+	for i := 0; i < len(a) && i < len(b); i++ {
+		if a[i] != b[i] {
+			return c.scale * (int(a[i]) - int(b[i]))
+		}
+	}
+	return c.scale * (len(a) - len(b))
+}
+
+var sstCmpNames = []string{"x2", "x7", "x1000", "x2^40", "diff", "diff", "diff*3", "diff*1000"}
+
+func sstCmpFor(name string) skiplist.Comparator[[]byte] {
+	switch name {
+	case "x2":
+		return sstMagCmp{false, 2}
+	case "x7":
+		return sstMagCmp{false, 7}
+	case "x1000":
+		return sstMagCmp{false, 1000}
+	case "x2^40":
+		return sstMagCmp{false, 1 << 40}
+	case "diff":
+		return sstMagCmp{true, 1}
+	case "diff*3":
+		return sstMagCmp{true, 3}
+	case "diff*1000":
+		return sstMagCmp{true, 1000}
+	}
+	return skiplist.BytesComparator{}
+}
+
+// long keys / values in REPORTED case strings: length, head, tail and CRC-64 (the case is regenerated from its index)
+func gbShort(b []byte) string {
+	if len(b) <= 8192 {
+		return gb(b)
+	}
+	return fmt.Sprintf("<%dB:%x..%x:crc64=%x>", len(b), b[:24], b[len(b)-8:], crc64Ref(b))
+}
+
+func (c *sstCase) callsStringShort(calls []sstCall) string {
+	parts := make([]string, len(calls))
+	for i, x := range calls {
+		parts[i] = gbShort(x.key) + ":" + gbShort(x.val) + ":" + string(x.fault)
+	}
+	return strings.Join(parts, ",")
 }
 
 func (c *sstCase) callsString(calls []sstCall) string {
@@ -57,8 +116,15 @@ func (c *sstCase) callsString(calls []sstCall) string {
 }
 
 func (c *sstCase) String() string {
-	return fmt.Sprintf("dcomp=%d icomp=%d wbuf=%d rbuf=%d bloomN=%d simple=%v style=%s flavour=%s calls=%s",
-		c.dcomp, c.icomp, c.wbuf, c.rbuf, c.bloomN, c.simple, c.style, c.flavour, c.callsString(c.calls))
+	cmp := ""
+	if c.cmp != "" {
+		cmp = " cmp=" + c.cmp
+	}
+	if c.big != "" {
+		cmp += " big=" + c.big
+	}
+	return fmt.Sprintf("dcomp=%d icomp=%d wbuf=%d rbuf=%d bloomN=%d simple=%v style=%s flavour=%s%s calls=%s",
+		c.dcomp, c.icomp, c.wbuf, c.rbuf, c.bloomN, c.simple, c.style, c.flavour, cmp, c.callsStringShort(c.calls))
 }
 
 // ---- generators
@@ -287,6 +353,164 @@ func sstGenCase(r *Rng, tier string) *sstCase {
 		c.calls[len(c.calls)-1].fault = "di"[r.Intn(2)]
 	}
 	return c
+}
+
+// ---- big-record cases: values (and now and then keys) above 32 KiB, 64 KiB and 1 MiB, compressible and not, under
+// every data/index compression pair (case j takes pair j mod 16), every reader configuration, both writers.
+// Few keys; the probe list is reduced so that a big value is returned a handful of times per configuration.
+
+func sstBigBytes(r *Rng, n int, class string) []byte {
+	switch class {
+	case "random": // incompressible
+		return r.Bytes(n)
+	case "pattern": // highly compressible: a short random pattern repeated
+		pat := r.Bytes(1 + r.Intn(40))
+		b := make([]byte, n)
+		for i := range b {
+			b[i] = pat[i%len(pat)]
+		}
+		return b
+	case "zeros":
+		return make([]byte, n)
+	case "text": // small alphabet, mildly compressible
+		b := make([]byte, n)
+		for i := range b {
+			b[i] = "abcdefgh \n"[r.Intn(10)]
+		}
+		return b
+	}
+	// mixed: compressible first half, random second half
+	b := sstBigBytes(r, n, "pattern")
+	copy(b[n/2:], r.Bytes(n-n/2))
+	return b
+}
+
+var sstBigContent = []string{"random", "pattern", "zeros", "text", "mixed"}
+
+func sstBigSize(r *Rng, class string) int {
+	switch class {
+	case ">32K":
+		return 32*1024 + 1 + r.Intn(3000)
+	case ">64K":
+		return 64*1024 + 1 + r.Intn(5000)
+	case ">128K":
+		return 128*1024 + 1 + r.Intn(40000)
+	}
+	return 1024*1024 + 1 + r.Intn(100000) // >1M
+}
+
+func sstGenBigCase(r *Rng, j int, tier string) *sstCase {
+	c := &sstCase{dcomp: j % 4, icomp: (j / 4) % 4, wbuf: r.Pick(bufSizes), rbuf: r.Pick(bufSizes), flavour: "table"}
+	c.bloomN = []uint64{1, 10, 1000}[r.Intn(3)]
+	c.bloomP = []float64{0.01, 0.0001, 0.000001}[r.Intn(3)]
+	c.style = []string{"short4", "mid20", "text", "int"}[r.Intn(4)]
+	n := 1 + r.Intn(5)
+	seen := map[string]bool{}
+	var keys [][]byte
+	for tries := 0; len(keys) < n && tries < 100; tries++ {
+		k := sstGenKey(r, c.style, tier)
+		if !seen[string(k)] {
+			seen[string(k)] = true
+			keys = append(keys, k)
+		}
+	}
+	var classes []string
+	// one key of the table is big in a third of the cases (index entries above the sizes; the map loaders do not apply then)
+	if r.Chance(33) || j%16 == 6 {
+		class := []string{">32K", ">32K", ">64K", ">128K"}[r.Intn(4)]
+		if j%16 == 6 && tier == "thorough" { // gzip index compression, once per 16 big cases
+			class = ">1M"
+		}
+		content := sstBigContent[r.Intn(len(sstBigContent))]
+		k := sstBigBytes(r, sstBigSize(r, class), content)
+		if !seen[string(k)] {
+			keys = append(keys, k)
+			classes = append(classes, "key"+class+":"+content)
+		}
+	}
+	sort.Slice(keys, func(a, b int) bool { return bytes.Compare(keys[a], keys[b]) < 0 })
+	// big values: one just above 32 KiB, one above 64 KiB (or above 128 KiB); one above 1 MiB in every fifth case (16 big cases: data compression 1, 2, 3; 0 comes with the 17th), in the quick tier always in case 1 and in a third of the others
+	var sizes []string
+	sizes = append(sizes, ">32K")
+	if len(keys) > 1 {
+		sizes = append(sizes, []string{">64K", ">64K", ">128K"}[r.Intn(3)])
+	} else if r.Chance(50) {
+		sizes[0] = ">64K"
+	}
+	if (j%5 == 1 && (tier == "thorough" || j == 1 || r.Chance(35))) || (tier == "thorough" && r.Chance(10)) {
+		sizes[r.Intn(len(sizes))] = ">1M"
+	}
+	slots := make([]int, len(keys))
+	for i := range slots {
+		slots[i] = i
+	}
+	for i := len(slots) - 1; i > 0; i-- {
+		k := r.Intn(i + 1)
+		slots[i], slots[k] = slots[k], slots[i]
+	}
+	bigAt := map[int]string{}
+	for i, sz := range sizes {
+		bigAt[slots[i]] = sz
+	}
+	for i, k := range keys {
+		var v []byte
+		if sz, ok := bigAt[i]; ok {
+			content := sstBigContent[r.Intn(len(sstBigContent))]
+			v = sstBigBytes(r, sstBigSize(r, sz), content)
+			classes = append(classes, "val"+sz+":"+content)
+		} else {
+			v = sstGenValue(r, c)
+		}
+		c.calls = append(c.calls, sstCall{key: k, val: v, fault: 'n'})
+	}
+	sort.Strings(classes)
+	c.big = strings.Join(classes, "+")
+	c.simple = r.Chance(25)
+	if !c.simple && r.Chance(20) { // a failing append of a big record, retried at once
+		p := r.Intn(len(c.calls))
+		f := sstCall{key: c.calls[p].key, val: c.calls[p].val, fault: "di"[r.Intn(2)]}
+		c.calls = append(c.calls[:p], append([]sstCall{f}, c.calls[p:]...)...)
+	}
+	if r.Chance(50) {
+		c.cmp = sstCmpNames[r.Intn(len(sstCmpNames))]
+	}
+	return c
+}
+
+func sstProbesBig(r *Rng, acc []sstKV, bf *bloomfilter.Filter, huge bool) []sstProbe {
+	bloomOf := func(k []byte) bool {
+		if bf == nil {
+			return true
+		}
+		h := fnv.New64()
+		_, _ = h.Write(k)
+		return bf.Contains(h)
+	}
+	ps := []sstProbe{{kind: "scan"}}
+	for _, p := range acc {
+		ps = append(ps, sstProbe{kind: "get", a: p.key}, sstProbe{kind: "has", a: p.key, bloom: bloomOf(p.key)})
+	}
+	var absent [][]byte
+	absent = append(absent, nil, []byte{})
+	if len(acc) > 0 {
+		k := acc[r.Intn(len(acc))].key
+		absent = append(absent, append(append([]byte{}, k...), 0))
+		if len(k) > 0 {
+			absent = append(absent, append([]byte{}, k[:len(k)-1]...))
+		}
+	}
+	for _, k := range absent {
+		ps = append(ps, sstProbe{kind: "get", a: k}, sstProbe{kind: "has", a: k, bloom: bloomOf(k)})
+	}
+	if len(acc) > 0 && !huge { // tables with a record above 1 MiB: one scan and the lookups only
+		a, b := acc[r.Intn(len(acc))].key, acc[r.Intn(len(acc))].key
+		ps = append(ps, sstProbe{kind: "from", a: a})
+		if bytes.Compare(a, b) > 0 {
+			a, b = b, a
+		}
+		ps = append(ps, sstProbe{kind: "range", a: a, b: b}, sstProbe{kind: "range", a: acc[len(acc)-1].key, b: acc[0].key})
+	}
+	return ps
 }
 
 // ---- independent reference: accepted pairs, per-call answers, the three files
@@ -551,13 +775,27 @@ func b2i(b bool) int {
 	return 0
 }
 
-func sstOpenReader(dir string, cfg sstReaderCfg, rbuf int) (sstables.SSTableReaderI, error) {
+func sstOpenReader(dir string, cfg sstReaderCfg, rbuf int, cmpName string) (sstables.SSTableReaderI, error) {
+	rd, _, err := sstOpenReaderOrdered(dir, cfg, rbuf, cmpName, nil)
+	return rd, err
+}
+
+// sstOpenReaderOrdered passes the read options in the order drawn from perm (nil: the fixed order base path, buffer
+// size, comparator, index loader, skip-on-load, check-on-reads); the options are independent settings, so the
+// configuration asked for is the same in every order. Returns the order used (names joined by ">").
+func sstOpenReaderOrdered(dir string, cfg sstReaderCfg, rbuf int, cmpName string, perm *Rng) (sstables.SSTableReaderI, string, error) {
 	opts := []sstables.ReadOption{sstables.ReadBasePath(dir), sstables.ReadBufferSizeBytes(rbuf)}
+	names := []string{"base-path", "buffer-size"}
+	if cmpName != "" {
+		opts = append(opts, sstables.ReadWithKeyComparator(sstCmpFor(cmpName)))
+		names = append(names, "comparator")
+	}
+	nBefore := len(opts)
 	switch cfg.loader {
 	case "slice":
 		opts = append(opts, sstables.ReadIndexLoader(&sstables.SliceKeyIndexLoader{ReadBufferSize: rbuf}))
 	case "skip":
-		opts = append(opts, sstables.ReadIndexLoader(&sstables.SkipListIndexLoader{KeyComparator: skiplist.BytesComparator{}, ReadBufferSize: rbuf}))
+		opts = append(opts, sstables.ReadIndexLoader(&sstables.SkipListIndexLoader{KeyComparator: sstCmpFor(cmpName), ReadBufferSize: rbuf}))
 	case "map4":
 		opts = append(opts, sstables.ReadIndexLoader(&sstables.MapKeyIndexLoader[[4]byte]{ReadBufferSize: rbuf, Mapper: &sstables.Byte4KeyMapper{}}))
 	case "map20":
@@ -565,15 +803,27 @@ func sstOpenReader(dir string, cfg sstReaderCfg, rbuf int) (sstables.SSTableRead
 	case "disk":
 		opts = append(opts, sstables.ReadIndexLoader(&sstables.DiskIndexLoader{}))
 	}
+	if len(opts) > nBefore {
+		names = append(names, "index-loader")
+	}
 	if !cfg.onLoad {
 		opts = append(opts, sstables.SkipHashCheckOnLoad())
+		names = append(names, "skip-check-on-load")
 	}
 	if cfg.onRead {
 		opts = append(opts, sstables.EnableHashCheckOnReads())
+		names = append(names, "check-on-reads")
+	}
+	if perm != nil { // Fisher-Yates: every permutation of the options used
+		for i := len(opts) - 1; i > 0; i-- {
+			k := perm.Intn(i + 1)
+			opts[i], opts[k] = opts[k], opts[i]
+			names[i], names[k] = names[k], names[i]
+		}
 	}
 	var rd sstables.SSTableReaderI
 	err := safely(func() error { var e error; rd, e = sstables.NewSSTableReader(opts...); return e })
-	return rd, err
+	return rd, strings.Join(names, ">"), err
 }
 
 func sstMetaString(md *sProto.MetaData) string {
@@ -865,8 +1115,10 @@ func runSst(res *Result, drv *Driver, seed uint64, n int, tier string, only int)
 		return err
 	}
 	defer os.RemoveAll(root)
-	res.Rule = "WriteNext programs (ascending tables and unsorted/repeated/varying-length/empty keys) x fault masks (data append, index append) x 4x4 compression x write/read buffer sizes x bloom sizing, " +
+	res.Rule = "WriteNext programs (ascending tables and unsorted/repeated/varying-length/empty keys) x fault masks (data append, index append) x key comparators of the bytes order returning -1/0/+1 or other magnitudes (scaled sign, byte/length difference; writer, reader option and skip-list loader) x 4x4 compression x write/read buffer sizes x bloom sizing, " +
 		"read back through {slice(default), slice, skip, map4, map20, disk} loaders x verify-on-load/verify-on-read with Contains/Get/Scan/ScanStartingAt/ScanRange probes; " +
+		"plus one BIG-RECORD table per 16 cases (values above 32 KiB, 64 KiB, 128 KiB and 1 MiB, now and then a key above 32 KiB, 64 KiB, 128 KiB (thorough: 1 MiB); random, repeated-pattern, zero, text and mixed content; " +
+		"compression pair j mod 16; every reader configuration; reduced probe list: scan, Get/Contains of every key and of absent neighbours, one from, two ranges); " +
 		"non-trivial = at least one accepted pair; distinct = distinct (program, options) strings"
 	// corpus first: the hand-written inputs of the counterexample theorems in SST/Props/C03.lean
 	// (case indices 1000000+i so that --only still addresses the generated cases)
@@ -892,7 +1144,33 @@ func runSst(res *Result, drv *Driver, seed uint64, n int, tier string, only int)
 		}
 		r := NewRng(seed, uint64(i))
 		c := sstGenCase(r, tier)
+		// the comparator comes from a second generator state: programs, options and expected answers are those of the
+		// plain cases (the verdicts depend on the sign only)
+		if r2 := NewRng(seed^0xc0a7a2a70e, uint64(i)); r2.Chance(50) {
+			c.cmp = sstCmpNames[r2.Intn(len(sstCmpNames))]
+		}
 		dir := filepath.Join(root, fmt.Sprintf("t%d", i))
+		if err := os.Mkdir(dir, 0o755); err != nil {
+			return err
+		}
+		if err := sstOne(res, drv, r, c, i, dir, tier); err != nil {
+			return err
+		}
+		_ = os.RemoveAll(dir)
+	}
+	// big-record cases (indices 2000000+j; their own generator state, the cases above are unchanged): one per 16 cases
+	nBig := (n + 15) / 16
+	if n >= 128 && nBig < 16 {
+		nBig = 16 // every compression pair once
+	}
+	for j := 0; j < nBig; j++ {
+		i := 2000000 + j
+		if only >= 0 && i != only {
+			continue
+		}
+		r := NewRng(seed^0xb16b16b16, uint64(i))
+		c := sstGenBigCase(r, j, tier)
+		dir := filepath.Join(root, fmt.Sprintf("b%d", j))
 		if err := os.Mkdir(dir, 0o755); err != nil {
 			return err
 		}
@@ -987,12 +1265,17 @@ func sstOne(res *Result, drv *Driver, r *Rng, c *sstCase, idx int, dir string, t
 	res.Sample(cs)
 
 	// ---- real writer
-	wopts := []sstables.WriterOption{sstables.WriteBasePath(dir), sstables.WithKeyComparator(skiplist.BytesComparator{}),
+	if c.cmp != "" {
+		res.Stat("cmp:magnitudes-other-than-1:" + c.cmp)
+	} else {
+		res.Stat("cmp:bytes")
+	}
+	wopts := []sstables.WriterOption{sstables.WriteBasePath(dir), sstables.WithKeyComparator(sstCmpFor(c.cmp)),
 		sstables.DataCompressionType(c.dcomp), sstables.IndexCompressionType(c.icomp), sstables.WriteBufferSizeBytes(c.wbuf),
 		sstables.BloomExpectedNumberOfElements(c.bloomN), sstables.BloomFalsePositiveProbability(c.bloomP)}
 	var results []string
 	if c.simple {
-		m := skiplist.NewSkipListMap[[]byte, []byte](skiplist.BytesComparator{})
+		m := skiplist.NewSkipListMap[[]byte, []byte](sstCmpFor(c.cmp))
 		for _, call := range c.calls {
 			m.Insert(call.key, call.val)
 		}
@@ -1061,7 +1344,11 @@ func sstOne(res *Result, drv *Driver, r *Rng, c *sstCase, idx int, dir string, t
 		return strings.Join(out, ",")
 	}
 	if fold(results) != fold(ref.results) {
-		res.Violate(idx, "C15", "call-results", "want "+fold(ref.results)+" got "+fold(results), cs)
+		sig := "call-results"
+		if c.cmp != "" {
+			sig += ":comparator-magnitudes-other-than-1"
+		}
+		res.Violate(idx, "C15", sig, "want "+fold(ref.results)+" got "+fold(results), cs)
 	}
 	// the reference encoder must reproduce the files (format drift or a writer defect otherwise)
 	res.Evaluations++
@@ -1090,6 +1377,15 @@ func sstOne(res *Result, drv *Driver, r *Rng, c *sstCase, idx int, dir string, t
 		return fmt.Errorf("bloom filter: %w", err)
 	}
 	probes := sstProbes(r, c, ref.acc, bf, tier)
+	if c.big != "" {
+		probes = sstProbesBig(r, ref.acc, bf, strings.Contains(c.big, ">1M"))
+		for _, cl := range strings.Split(c.big, "+") {
+			res.Stat("big:" + fmt.Sprintf("dcomp=%d:", c.dcomp) + strings.SplitN(cl, ":", 2)[0])
+			res.Stat("big:" + fmt.Sprintf("icomp=%d:", c.icomp) + strings.SplitN(cl, ":", 2)[0])
+			res.Stat("big:content:" + strings.SplitN(cl, ":", 2)[1])
+		}
+		res.Stat("big:cases")
+	}
 	maxLen := 0
 	for _, p := range ref.acc {
 		if len(p.key) > maxLen {
@@ -1137,6 +1433,18 @@ func sstOne(res *Result, drv *Driver, r *Rng, c *sstCase, idx int, dir string, t
 		}
 		return out
 	}
+	// big KEYS: the model of the disk loader walks the index file byte by byte (seconds per lookup above 32 KiB of index):
+	// it is asked for the scan only (not at all above 200 KB); every probe still meets the reference-map oracle
+	diskModelN := len(diskProbes)
+	if c.big != "" && maxLen > 32*1024 {
+		diskModelN = 1
+		if maxLen > 200000 {
+			diskModelN = -1
+			res.Stat("big:disk-loader-oracle-only(index>200KB)")
+		} else {
+			res.Stat("big:disk-loader-model-scan-only")
+		}
+	}
 	var cfgStrs []string
 	var implOuts []string
 	phantom := -1
@@ -1153,7 +1461,7 @@ func sstOne(res *Result, drv *Driver, r *Rng, c *sstCase, idx int, dir string, t
 		} else if cfg.loader == "map20" {
 			width = 20
 		}
-		rd, err := sstOpenReader(dir, cfg, c.rbuf)
+		rd, err := sstOpenReader(dir, cfg, c.rbuf, c.cmp)
 		if err != nil {
 			// a freshly written table must open
 			res.Evaluations++
@@ -1184,9 +1492,11 @@ func sstOne(res *Result, drv *Driver, r *Rng, c *sstCase, idx int, dir string, t
 				res.Violate(idx, "C15", "metadata", fmt.Sprintf("want n=%d nulls=%d min=%s max=%s data=%d index=%d got %s", len(ref.acc), ref.nulls, gb(minK), gb(maxK), len(fData), len(fIndex), sstMetaString(md)), cs)
 			}
 		}
-		for _, p := range probes {
+		for pi, p := range probes {
 			got := sstRunProbe(rd, p, len(ref.acc)+2)
-			outs = append(outs, got)
+			if cfg.loader != "disk" || pi < diskModelN {
+				outs = append(outs, got)
+			}
 			res.Stat("probe:" + p.kind)
 			// ---- C03 oracle
 			long := width > 0 && (len(p.a) > width && (p.kind == "get" || p.kind == "has"))
@@ -1241,13 +1551,16 @@ func sstOne(res *Result, drv *Driver, r *Rng, c *sstCase, idx int, dir string, t
 	for i := range cfgs {
 		mem = append(mem, i)
 	}
-	if len(diskProbes) == len(allProbes) {
+	if len(diskProbes) == len(allProbes) && diskModelN == len(diskProbes) {
 		return ask(mem, allProbes)
 	}
 	if err := ask(mem[:len(mem)-1], allProbes); err != nil {
 		return err
 	}
-	return ask(mem[len(mem)-1:], diskProbes)
+	if diskModelN < 0 {
+		return nil
+	}
+	return ask(mem[len(mem)-1:], diskProbes[:diskModelN])
 }
 
 func clipS(s string, n int) string {
